@@ -1,18 +1,4 @@
-import Mathlib.Data.List.Basic
-import Mathlib.Data.List.Perm.Subperm
-open List
-#check @List.getElem_idxOf
-#check @List.idxOf_lt_length_iff
-#check @List.idxOf_lt_length_of_mem
-#check @List.Nodup.subperm
-#check @List.Subperm.perm_of_length_le
-#check @List.nodup_range
-#check @List.getD_eq_getElem
-#check @List.getD_map
-#check @List.getElem_map
-#check @List.ext_getElem
-#check @List.perm_ext_iff_of_nodup
-#check @List.idxOf_cons
-#check @List.mem_range
-#check @List.getD_eq_getElem?_getD
-#check @List.idxOf_getElem
+import CotengraVerif.Lemmas.BmmMain
+#print axioms Cotengra.Bmm.bmm_lab
+#print axioms Cotengra.Bmm.pure_lab
+#print axioms Cotengra.Bmm.single_plan_lab
